@@ -162,6 +162,21 @@ func pickPuts(r *kit.Rng, s schema) []string {
 	return p
 }
 
+// a failure inside a rename, at the granularity of the storage calls it issues: the rows batch,
+// the version row, the k-th write call whatever it is, or the process stopping after k writes
+func genRenameFault(r *kit.Rng) *faultSpec {
+	switch r.Intn(8) {
+	case 0:
+		return &faultSpec{Point: "batch", Reg: 0}
+	case 1:
+		return &faultSpec{Point: "ver", Reg: 0}
+	case 2, 3, 4:
+		return &faultSpec{Point: "write", K: 1 + r.Intn(3)}
+	default:
+		return &faultSpec{Point: "stop", K: r.Intn(3)}
+	}
+}
+
 func genFault(r *kit.Rng) *faultSpec {
 	return &faultSpec{Point: kit.Pick(r, []string{"ver", "ver", "batch"}), Reg: r.Intn(3)}
 }
@@ -191,6 +206,8 @@ func need(s schema) (q, c, sg int) {
 //	            (new processes) with the same or a different schema, then more versions
 //	retry     - failed starts retried inside the same process (same registry objects), then a
 //	            new process whose schema grew by a name enumerated before the old ones
+//	rename    - renames failing at each of their storage calls / stopped between them, followed
+//	            by new processes whose schema has the old name, the new name or both
 //	limit     - seeded rows next to an ID limit
 //	malformed - stored rows / versions the code must refuse, renames that must be refused
 func genScenario(r *kit.Rng, backend, kind string) *scenario {
@@ -265,6 +282,13 @@ func genScenario(r *kit.Rng, backend, kind string) *scenario {
 			} else if r.Chance(1, 4) {
 				st.Fault = genFault(r) // later failures: harmless once the version row exists
 			}
+		case "rename":
+			// renames with failures at each of their storage calls; often on a registry whose
+			// version row is still absent (first store interrupted at the version row and retried
+			// in the process), where the rename has to write the version row too
+			if first && r.Chance(1, 2) {
+				st.Fault = &faultSpec{Point: "ver", Reg: 0}
+			}
 		case "retry":
 			// a failed start retried inside the process, then a new process whose schema has
 			// grown by a name enumerated before the old ones
@@ -281,7 +305,7 @@ func genScenario(r *kit.Rng, backend, kind string) *scenario {
 		}
 		first = false
 		sc.Steps = append(sc.Steps, st)
-		if st.Fault != nil && (kind == "retry" || r.Chance(1, 3)) {
+		if st.Fault != nil && (kind == "retry" || kind == "rename" || r.Chance(1, 3)) {
 			sc.Steps = append(sc.Steps, retriesAfter(r, &cur)...)
 			if kind == "retry" {
 				cur = growBefore(r, cur)
@@ -289,7 +313,7 @@ func genScenario(r *kit.Rng, backend, kind string) *scenario {
 		}
 		// a rename between versions
 		renameChance := 3
-		if kind == "malformed" {
+		if kind == "malformed" || kind == "rename" {
 			renameChance = 7
 		}
 		if r.Chance(renameChance, 10) && len(cur.Docs) > 0 {
@@ -304,10 +328,22 @@ func genScenario(r *kit.Rng, backend, kind string) *scenario {
 				rs.Old = pkgName + ".ghost" // unknown old name
 			case kind == "malformed" && r.Chance(1, 2) && len(cur.Docs) > 1:
 				rs.New = pkgName + "." + cur.Docs[(i+1)%len(cur.Docs)].Name // new name exists
-			case r.Chance(1, 8):
-				rs.Fault = &faultSpec{Point: "batch", Reg: 0}
+			case r.Chance(1, 3) || (kind == "rename" && r.Chance(1, 2)):
+				rs.Fault = genRenameFault(r)
 			}
 			sc.Steps = append(sc.Steps, rs)
+			if rs.Fault != nil && rs.Old == pkgName+"."+old && rs.New != rs.Old && cur.has(nw) < 0 {
+				// a rename that may have failed half-way: the next process runs a schema with both
+				// names, or with one of them (the operator cannot know which state the storage is in)
+				cur = cloneSchema(cur)
+				switch r.Intn(4) {
+				case 0, 1:
+					cur.Docs = append(cur.Docs, genDoc(r, nw))
+				case 2:
+					cur.Docs[i].Name = nw
+				}
+				continue
+			}
 			if rs.Old == pkgName+"."+old && rs.New != rs.Old && r.Chance(3, 4) && cur.has(nw) < 0 {
 				// the usual flow: the next schema carries the new name instead of the old one
 				cur = cloneSchema(cur)
@@ -326,12 +362,14 @@ func ptr[T any](x T) *T { return &x }
 
 func kindOf(i int) string {
 	switch i % 10 {
-	case 0, 1, 2:
+	case 0, 1:
 		return "history"
-	case 3, 4:
+	case 2, 3:
 		return "interrupt"
-	case 5, 6, 7:
+	case 4, 5:
 		return "retry"
+	case 6, 7:
+		return "rename"
 	case 8:
 		return "limit"
 	}
